@@ -19,8 +19,9 @@ use yash_env::system::{
     Chdir, Close, Dir as _, Dup, Errno, Fcntl, FdFlag, Fstat, GetCwd, Mode, OfdAccess, Open, OpenFlag, Read, Seek, Stat as _, Umask, Write,
 };
 
-pub const PATHS: [&str; 16] = [
-    "f1", "f2", "e1", "d", "d/a.txt", "d/sub", "d/sub/deep.txt", "d/new", "nodir/f", "e1/x", ".", "..", "d/..", "d/./sub/../a.txt", "", "empty",
+pub const PATHS: [&str; 21] = [
+    "f1", "f2", "e1", "d", "d/a.txt", "d/sub", "d/sub/deep.txt", "d/new", "nodir/f", "e1/x", ".", "..", "d/..", "d/./sub/../a.txt", "", "empty", "e1/.", "e1/",
+    "d//a.txt", "./f1", "d/sub/.",
 ];
 
 #[derive(Clone, Debug, Serialize, Deserialize, PartialEq)]
